@@ -631,6 +631,11 @@ for _i, (_what, _r) in enumerate((('message-labels-substring', 'C10.5'), ('key-w
                                   ('key-check-only-warns', 'C10.5'), ('cleartext-or-empty', 'C10.5'), ('cleartext-unescaped-twice', 'C10.5'),
                                   ('key-magic-via-is-public', 'C10.4')), 1):
     _MD('C10', 'stress-C-mut%02d-%s' % (_i, _what), 'G9-C-mut%02d.diff' % _i, _r)
+for _i in range(1, 11):
+    _TD('C10', 'stress-B-twin%02d-reader-regex-respelling' % _i, 'G9-B-twin%02d.diff' % _i)
+for _i, _what, _r in ((1, 'crc-zero-skips-check', 'C10.6'), (2, 'unarmor-match-not-search', 'C10.7'), (4, 'reader-lines-64', 'C10.3'), (5, 'crc-group-1-to-4', 'C10.2'),
+                      (6, 'end-label-free', 'C10.7')):
+    _MD('C10', 'stress-B-mut%02d-%s' % (_i, _what), 'G9-B-mut%02d.diff' % _i, _r)
 
 # =============================================================================================== C11
 M('C11', 'escape-two-spaces', PGP, "        return re.subn(r'^-', '- -', text, flags=re.MULTILINE)[0]", "        return re.subn(r'^-', '-  -', text, flags=re.MULTILINE)[0]", 'C11.1')
@@ -802,6 +807,10 @@ for _i, (_what, _r) in enumerate((('escape-str-replace-first-line', 'C11.1'), ('
                                   ('strip-misses-last-line', 'C11.4'), ('hash-header-lowercase-hasher-name', 'C11.3'), ('blank-line-folded-into-hash-header', 'C11.3'),
                                   ('verify-raw-message', 'C11.4'), ('lone-cr-canonicalised', 'C11.4')), 1):
     _MD('C11', 'stress-D-mut%02d-%s' % (_i, _what), 'G9-D-mut%02d.diff' % _i, _r)
+for _i in range(1, 11):
+    _TD('C11', 'stress-B-twin%02d-reader-regex-respelling' % _i, 'G9-B-twin%02d.diff' % _i)
+for _i, _what, _r in ((7, 'hash-framing-two-or-more', 'C11.3'), (8, 'final-cleartext-line-greedy', 'C11.7')):
+    _MD('C11', 'stress-B-mut%02d-%s' % (_i, _what), 'G9-B-mut%02d.diff' % _i, _r)
 
 # =============================================================================================== C09
 M('C09', 'enc-191', TY, "            if 192 > nl:\n                return Header.int_to_bytes(nl)", "            if 191 > nl:\n                return Header.int_to_bytes(nl)", 'C09.1')
